@@ -532,6 +532,10 @@ func keyspace(args []string) error {
 	rnd := rand.New(rand.NewSource(cli.Seed()))
 	for run := 1; run <= *runs; run++ {
 		n := 1 + rnd.Intn(4)
+		big := run == 1 // one run with pages far beyond 1024 keys (COUNT is passed through, every key of the page comes back)
+		if big {
+			n = 2
+		}
 		cl, err := simredis.NewCluster(n, 0)
 		if err != nil {
 			return err
@@ -543,6 +547,9 @@ func keyspace(args []string) error {
 		sut.WaitRefresh(px.Name, 2*time.Second)
 		stored := map[string]bool{}
 		nk := rnd.Intn(120)
+		if big {
+			nk = 3000 + rnd.Intn(500)
+		}
 		for i := 0; i < nk; i++ {
 			k := fmt.Sprintf("key:%d:%d", run, rnd.Intn(1000000))
 			stored[k] = true
@@ -551,6 +558,9 @@ func keyspace(args []string) error {
 		res := result{ID: run, Nodes: n}
 		c, _ := sut.Dial(px.Addr)
 		count := strconv.Itoa(1 + rnd.Intn(15))
+		if big {
+			count = strconv.Itoa(1100 + rnd.Intn(900))
+		}
 		cursor := "0"
 		seen := map[string]bool{}
 		for i := 0; i < nk+4*n+10; i++ {
